@@ -59,6 +59,34 @@ def harness(tier, seed):
                     viol.append((f"ttp/{o}/raises-on-accepted-plan", info, repr(ex)))
             if len(samples) < 2:
                 samples.append(info)
+    # ---- 2D bin packing: what the decoders store must fit the storage type the instance constructor picked - also for a
+    # rotated wide item (bin side + item width).  Whatever both decoders produce for a generated instance (sizes around the
+    # int8 / int16 limits) is accepted by PackingSpace.validate and has no negative coordinate.
+    try:
+        from contracts.binpacking import rand_instance, rand_signed_perm
+        from moptipyapps.binpacking2d.encodings.ibl_encoding_1 import ImprovedBottomLeftEncoding1
+        from moptipyapps.binpacking2d.encodings.ibl_encoding_2 import ImprovedBottomLeftEncoding2
+        from moptipyapps.binpacking2d.packing_space import PackingSpace
+        for k_ in range(60 if tier == "quick" else 800):
+            bi = rand_instance(rng, max_items=rng.choice([3, 6]))
+            sp_ = PackingSpace(bi)
+            for cls in (ImprovedBottomLeftEncoding1, ImprovedBottomLeftEncoding2):
+                x_ = rand_signed_perm(rng, bi)
+                y_ = sp_.create()
+                info = {"W": int(bi.bin_width), "H": int(bi.bin_height), "dtype": str(bi.dtype),
+                        "items": [[int(v) for v in bi[i]] for i in range(bi.n_different_items)], "x": [int(v) for v in x_]}
+                try:
+                    cls(bi).decode(x_, y_)
+                    evals += 1
+                    if int(np.array(y_).min()) < 0:
+                        viol.append(("binpacking/stored-value-wrapped", info, f"negative entry in the packing: {np.array(y_).tolist()}"))
+                        break
+                    sp_.validate(y_)
+                except Exception as ex:     # noqa: BLE001
+                    viol.append(("binpacking/decoded-packing-rejected-or-raises", info, repr(ex)))
+                    break
+    except Exception as ex:     # noqa: BLE001
+        viol.append(("binpacking/raises", {}, repr(ex)))
     # ---- dynamic control: a system with TWO control values driven by a generated two-output network through the
     # figure-of-merit objectives (all bundled systems have one control value).  Every array a controller kernel gets
     # is sized by the caller from the controller's declared dimensions.
